@@ -256,11 +256,24 @@ def model_float(x):
     return float(x)
 
 
-def model_max(*a):
+def model_max(*a, **kw):
     if len(a) == 2 and any(isinstance(x, (SR, SI)) for x in a):
         x, y = SR.lift(a[0]), SR.lift(a[1])
         return sym.ite(x.e >= y.e, x, y)
-    return max(*a)
+    if len(a) == 1 and not isinstance(a[0], (list, tuple)) or (len(a) == 1 and any(isinstance(x, (SR, SI)) for x in a[0])):
+        items = list(a[0])
+        if not items:
+            if "default" in kw:
+                return kw["default"]
+            raise ValueError("max() arg is an empty sequence")
+        if any(isinstance(x, (SR, SI)) for x in items):
+            r = SR.lift(items[0])
+            for x in items[1:]:
+                x = SR.lift(x)
+                r = sym.ite(r.e >= x.e, r, x)
+            return r
+        return max(items, **kw)
+    return max(*a, **kw)
 
 
 def model_min(*a):
